@@ -82,7 +82,8 @@ def main():
         dst = os.path.join(VERIF, 'benign', a.bid)
         os.makedirs(dst, exist_ok=True)
         for f in ('patch.diff', 'notes.md'):
-            if os.path.exists(os.path.join(a.src, f)):
+            if os.path.exists(os.path.join(a.src, f)) and \
+                    os.path.abspath(a.src) != os.path.abspath(dst):
                 shutil.copy(os.path.join(a.src, f), dst)
         with open(os.path.join(dst, 'verdict.json'), 'w') as f:
             json.dump(report, f, indent=1)
